@@ -32,17 +32,18 @@ type ReplayFile struct {
 var claimed = map[string]bool{"C06": true, "C07": true, "C08": true, "C13": true, "C14": true}
 
 type driver struct {
-	verifDir    string
-	self        string
-	tmp         string
-	workers     int
-	seq         int
-	mu          sync.Mutex
-	raceStats   map[string]any
-	spsaWorkers int
-	forceGMP1   bool
-	gridSeen    map[int]bool
-	gridTotal   int
+	verifDir      string
+	self          string
+	tmp           string
+	workers       int
+	seq           int
+	mu            sync.Mutex
+	raceStats     map[string]any
+	spsaWorkers   int
+	forceGMP1     bool
+	noBlockWriter bool
+	gridSeen      map[int]bool
+	gridTotal     int
 }
 
 func envInt(name string, def int) int {
@@ -132,6 +133,27 @@ func hangBlame(stacks string) (bool, string) {
 	return false, ""
 }
 
+// hangLockHeld recognises the one hang the harness cannot avoid by itself: no
+// goroutine of the bubble is running, but one waits on a sync.Mutex (held by a
+// goroutine that is parked in the simulated Write). synctest never reports
+// such a bubble as quiescent.
+func hangLockHeld(stacks string) bool {
+	lock := false
+	for _, g := range strings.Split(stacks, "\n\n") {
+		head, _, _ := strings.Cut(g, "\n")
+		if !strings.Contains(head, "synctest bubble") {
+			continue
+		}
+		if strings.Contains(head, "[running") || strings.Contains(head, "[runnable") {
+			return false
+		}
+		if strings.Contains(head, "[sync.Mutex.Lock") || strings.Contains(head, "[sync.RWMutex") {
+			lock = true
+		}
+	}
+	return lock
+}
+
 type workerOut struct {
 	runs    []*RunResult
 	summary *WorkerSummary
@@ -139,6 +161,7 @@ type workerOut struct {
 	err     error
 	cur     string
 	hang    *hangRecord
+	ignore  bool // superseded by a repeat of the same run (see hangLockHeld)
 }
 
 func (d *driver) spawn(job Job, gomaxprocs int) *workerOut {
@@ -161,6 +184,7 @@ func (d *driver) spawnBin(bin string, job Job, gomaxprocs int) *workerOut {
 	d.mu.Unlock()
 	outPath := filepath.Join(d.tmp, fmt.Sprintf("w%d.jsonl", id))
 	job.CurPath = filepath.Join(d.tmp, fmt.Sprintf("w%d.cur", id))
+	job.NoBlockWriter = job.NoBlockWriter || d.noBlockWriter
 	js, _ := json.Marshal(job)
 	cmd := exec.Command(bin, "-test.run=^TestWorker$", "-test.count=1", "-test.timeout=0")
 	cmd.Env = append(os.Environ(), "VERIF_MODE=worker", "VERIF_JOB="+string(js), "VERIF_OUT="+outPath)
@@ -470,6 +494,21 @@ func (d *driver) check(prop, tier string) int {
 				case wo.summary != nil && wo.summary.Restart:
 					// a run left a deadlocked driver behind: continue in a fresh process
 					job.SkipK = wo.summary.NextK
+				case wo.summary == nil && wo.hang != nil && hangLockHeld(wo.hang.Stacks):
+					// see hangLockHeld: repeat the run, and do everything from here on,
+					// with the non-blocking writer
+					d.mu.Lock()
+					if !d.noBlockWriter {
+						fmt.Printf("note: the code under test holds a lock while it writes to the GUI; output back-pressure is not simulated from here on (every write is accepted at once)\n")
+					}
+					d.noBlockWriter = true
+					d.mu.Unlock()
+					wo.ignore = true
+					rc := caseFromSidecar(wo.cur)
+					if rc == nil {
+						return
+					}
+					job.SkipK = int((rc.Run - job.FirstRun - uint64(i)) / uint64(d.workers))
 				case wo.summary == nil:
 					// the process died; if the engine is to blame the run is a finding
 					// and the exploration goes on behind it
@@ -502,6 +541,16 @@ func (d *driver) check(prop, tier string) int {
 	others := map[string]int{}
 	otherFirst := map[string]string{}
 	for i, wo := range outs {
+		if wo.ignore {
+			for _, rr := range wo.runs {
+				for _, v := range rr.Violations {
+					if v.Property == prop {
+						found = append(found, finding{run: rr, v: v})
+					}
+				}
+			}
+			continue
+		}
 		if wo.summary == nil {
 			// the worker died: a panic outside the search seam
 			blame, what := crashBlame(wo.stderr)
@@ -832,6 +881,15 @@ func (d *driver) determinismAt(prop, tier string, master uint64, n, gmpA, gmpB i
 	go func() { defer wg.Done(); a = d.spawn(job, gmpA) }()
 	go func() { defer wg.Done(); b = d.spawn(job, gmpB) }()
 	wg.Wait()
+	if !d.noBlockWriter {
+		for _, wo := range []*workerOut{a, b} {
+			if wo.summary == nil && wo.hang != nil && hangLockHeld(wo.hang.Stacks) {
+				fmt.Printf("note: the code under test holds a lock while it writes to the GUI; synctest cannot see a bubble with a goroutine waiting on a sync.Mutex as quiescent, so output back-pressure is not simulated in this run (every write is accepted at once)\n")
+				d.noBlockWriter = true
+				return d.determinismAt(prop, tier, master, n, gmpA, gmpB)
+			}
+		}
+	}
 	if a.summary == nil || b.summary == nil {
 		// a crash here is handled by the main fan-out (same seeds are run again)
 		return 0, false
